@@ -24,3 +24,147 @@ Definition model_error_outcome (site : error_site) (stk : list frame) (s : state
   | SiteOtherRedirection => let s1 := set_status 2 s in (apply_errexit stk s1, s1)
   | SiteNotFound => let s1 := set_status 127 s in (apply_errexit stk s1, s1)
   end.
+
+(* ------------------------------------------------------------------ *)
+(* Extension: further categories of shell errors (XCU 2.8.1 as          *)
+(* implemented) planted at composable positions                        *)
+(* ------------------------------------------------------------------ *)
+
+(* The command language of the shared model (coq/C02/Model.v) has no `shift`,
+   `unset`, `eval` ...; what these built-ins do when they fail is, as far as
+   this property observes it (status, divert), what a command of the shared
+   model does.  [xerr] names the planted error, [xlower] the command of the
+   shared model that stands for it; the harness renders the REAL command
+   (column "script text") and the real shell's behaviour is compared with the
+   model's on the lowered script on every run.
+
+   category              script text                 yash-rs code path
+   XShiftTooMany         shift 5                     yash-builtin/src/shift.rs     report_failure  (1)
+   XShiftOperand         shift 1 2                   shift.rs / common/syntax      report_error    (2)
+   XUnsetReadonly        unset v3   (v3 read-only)   unset.rs                      report_failure  (1)
+   XSetBadOption         set -o nosuchoption         set.rs                        report_error    (2)
+   XReadonlyReassign     readonly v3=t1              typeset.rs (readonly)         report_failure  (1)
+   XExportReadonly       export v3=t1                typeset.rs (export)           report_failure  (1)
+   XExportSubstReadonly  export v3=$(true)           the same after the substitution ran       (1)
+   XTimesOperand         times x                     times.rs                      report_error    (2)
+   XReturnOperand        return x                    return.rs                     report_error    (2)
+   XBreakOperand         break x                     break.rs                      report_error    (2)
+   XDotNotFound          . /nonexistent/script       source/semantics.rs           report_failure  (1)
+   XExecNotFound         exec /nonexistent/cmd       exec.rs: Divert::Exit, status 127, also through `command`
+   XEvalSyntax           eval 'if'                   eval.rs -> read_eval_loop -> handle.rs syntax error: Interrupt(2), also through `command`
+   XEvalSpecial          eval 'shift 5'              the inner special built-in's Interrupt passes through eval (and `command eval`)
+   XTrapBadSignal        trap '' NOSUCH              trap.rs: status 1, NOT an error (POSIX: "shall not be considered an error")
+   XExportSubstFails     export v4=$(exit 3)         the status of the substitution is not the status of export: 0
+   XExecNotFoundPath     exec nonexistent_cmd        exec.rs, the PATH search fails: Divert::Abort, status 127
+   XDotSyntax            . /synt.sh  (contains `if`) source -> read_eval_loop -> handle.rs syntax error: Interrupt(2), also through `command`
+   XDotSpecial           . /shift.sh (contains `shift 5`)  the inner special built-in's Interrupt passes through `.`
+   XPrefixShiftTooMany   v9=t0 shift 5               the error of a special built-in with an assignment prefix
+   (the harness writes the two files first: `echo if >/synt.sh`, `echo 'shift 5' >/shift.sh`) *)
+Inductive xerr :=
+| XShiftTooMany | XShiftOperand | XUnsetReadonly | XSetBadOption | XReadonlyReassign
+| XExportReadonly | XExportSubstReadonly | XTimesOperand | XReturnOperand | XBreakOperand
+| XDotNotFound | XExecNotFound | XEvalSyntax | XEvalSpecial | XTrapBadSignal | XExportSubstFails
+| XExecNotFoundPath | XDotSyntax | XDotSpecial | XPrefixShiftTooMany.
+
+Definition all_xerr : list xerr :=
+  [XShiftTooMany; XShiftOperand; XUnsetReadonly; XSetBadOption; XReadonlyReassign;
+   XExportReadonly; XExportSubstReadonly; XTimesOperand; XReturnOperand; XBreakOperand;
+   XDotNotFound; XExecNotFound; XEvalSyntax; XEvalSpecial; XTrapBadSignal; XExportSubstFails;
+   XExecNotFoundPath; XDotSyntax; XDotSpecial; XPrefixShiftTooMany].
+
+(* [viac]: the command is run through the `command` built-in *)
+Definition xlower (e : xerr) (viac : bool) : cmd :=
+  let d := mkDeco false viac in
+  match e with
+  | XShiftTooMany | XUnsetReadonly | XReadonlyReassign | XExportReadonly
+  | XExportSubstReadonly | XDotNotFound =>
+      CCall d NDot []              (* status 1 + the error divert of the Builtin frame *)
+  | XShiftOperand | XSetBadOption | XTimesOperand | XReturnOperand | XBreakOperand =>
+      CCall d NBreak [0%N]         (* status 2 + the error divert of the Builtin frame *)
+  | XExecNotFound | XExecNotFoundPath => CCall plain NExit [127%N]
+  | XEvalSyntax | XDotSyntax => CAssign 0 (WReq 2)   (* v2 is never set: Interrupt(2) / Exit(2) *)
+  | XEvalSpecial | XDotSpecial => CCall plain NDot []
+  | XPrefixShiftTooMany =>
+      (* the `command` built-in with an assignment prefix: the assignment is temporary and not observed *)
+      if viac then CCall d NDot [] else CPrefixCall 9 (WLit 0) NDot []
+  | XTrapBadSignal => CCall d NFalse []
+  | XExportSubstFails => CCall d NColon []
+  end.
+
+(* Positions; they compose: a list of positions is read outside-in. *)
+Inductive position :=
+| PBrace          (* { B; }                         *)
+| PIfCond         (* if B; then :; fi               *)
+| PAndLeft        (* { B; } && :                    *)
+| POrLeft         (* { B; } || :                    *)
+| PNeg            (* ! { B; }                       *)
+| PFun            (* fI() { B; }; fI                *)
+| PFunInCond      (* fI() { B; }; if fI; then :; fi *)
+| PSubshell       (* ( B )                          *)
+| PSubst          (* v0=$( B )                      *)
+| PSubstIgn       (* : $( B )                       *)
+| PWhileCond      (* while B; do break; done        *)
+| PUntilCond      (* until B; do break; done        *)
+| PForBody        (* for v0 in t0; do B; done       *)
+| PPipeLast       (* probe 4 | { B; }               *)
+| PPipeFirst.     (* { B; } | probe 4               *)
+
+Definition all_positions : list position :=
+  [PBrace; PIfCond; PAndLeft; POrLeft; PNeg; PFun; PFunInCond; PSubshell; PSubst; PSubstIgn;
+   PWhileCond; PUntilCond; PForBody; PPipeLast; PPipeFirst].
+
+Definition xpl (c : cmd) : pipeline := Pipe false (CCons c CNil).
+Definition xao (c : cmd) : andor := AndOr (xpl c) RNil.
+Fixpoint xcl (cs : list cmd) : clist :=
+  match cs with [] => LNil | c :: cs' => LCons (xao c) (xcl cs') end.
+Definition xprobe (k : N) : cmd := CCall plain NProbe [k].
+Definition xcolon : cmd := CCall plain NColon [].
+Definition xthen : clist := xcl [xcolon].
+
+Definition xwrap (p : position) (i : N) (b : clist) : clist :=
+  match p with
+  | PBrace => xcl [CBrace b]
+  | PIfCond => xcl [CIf b xthen ENil false LNil]
+  | PAndLeft => LCons (AndOr (xpl (CBrace b)) (RCons true (xpl xcolon) RNil)) LNil
+  | POrLeft => LCons (AndOr (xpl (CBrace b)) (RCons false (xpl xcolon) RNil)) LNil
+  | PNeg => LCons (AndOr (Pipe true (CCons (CBrace b) CNil)) RNil) LNil
+  | PFun => xcl [CFunDef (NUser i) (CBrace b); CCall plain (NUser i) []]
+  | PFunInCond =>
+      xcl [CFunDef (NUser i) (CBrace b);
+           CIf (xcl [CCall plain (NUser i) []]) xthen ENil false LNil]
+  | PSubshell => xcl [CSubshell b]
+  | PSubst => xcl [CAssignSub 0 b]
+  | PSubstIgn => xcl [CSubstArg b]
+  | PWhileCond => xcl [CWhile false b (xcl [CCall plain NBreak []])]
+  | PUntilCond => xcl [CWhile true b (xcl [CCall plain NBreak []])]
+  | PForBody => xcl [CFor 0 [WLit 0] b]
+  | PPipeLast => LCons (AndOr (Pipe false (CCons (xprobe 4) (CCons (CBrace b) CNil))) RNil) LNil
+  | PPipeFirst => LCons (AndOr (Pipe false (CCons (CBrace b) (CCons (xprobe 4) CNil))) RNil) LNil
+  end.
+
+(* the function of the position at nesting level i is fI, I = number of positions inside it *)
+Fixpoint xplant (ps : list position) (b : clist) : clist :=
+  match ps with
+  | [] => b
+  | p :: ps' => xwrap p (N.of_nat (length ps')) (xplant ps' b)
+  end.
+
+Record xspec := mkX {
+  x_err : xerr; x_viac : bool; x_errexit : bool; x_trap : bool; x_pos : list position }.
+
+Definition xtrap_key : N := 9999.
+
+(* [trap 'probe 9999' EXIT]
+   v3=t0
+   readonly v3
+   [set -e]
+   probe 1
+   POSITIONS[ VICTIM; probe 2 ]
+   probe 3 *)
+Definition xscript (x : xspec) : prog :=
+  (if x_trap x then [LCmd (xcl [CTrapExit (xcl [xprobe xtrap_key])])] else [])
+  ++ [LCmd (xcl [CAssign 3 (WLit 0)]); LCmd (xcl [CReadonly 3])]
+  ++ (if x_errexit x then [LCmd (xcl [CCall plain NSet [1%N]])] else [])
+  ++ [LCmd (xcl [xprobe 1]);
+      LCmd (xplant (x_pos x) (xcl [xlower (x_err x) (x_viac x); xprobe 2]));
+      LCmd (xcl [xprobe 3])].
